@@ -15,14 +15,18 @@ raises KeyboardInterrupt, raises another BaseException, returns something `proce
 rejects), histories over {set input, run locally, run on an executor, oldest job completes, clear the
 failed flag, queued jobs cancelled before they start, the executor loses a job, the running flag is
 reset by hand}, applied in lock-step to the node and to its twin with caching off.
-`Cfg.pinned` = the code as pinned; `Cfg.repaired` = the tree as it is now (cache written after the
-gate, cleared on failure, hit only when the run would be admitted); `Cfg.proposed` = the inputs of an
-admitted run are recorded only when the result of that very run has been processed.
+`Cfg.pinned` = the code as pinned; `Cfg.repaired` = /repo after 0699958 (cache written after the gate,
+cleared on failure, hit only when the run would be admitted) — the tree the findings KF-C05-3/4/5 were
+made on, "current" in the names of the theorems about it; `Cfg.proposed` = /repo after b54ba0f (the
+inputs of an admitted run are recorded only when the result of that very run has been processed);
+`Cfg.now` = /repo as it is: b54ba0f + f3b0474 (the done-callback treats KeyboardInterrupt as a failure,
+like a local run does).
 
 ## Composite level (`PwVerif.CacheTree`)
 Nested trees of function nodes and composites; `key` = `Composite._internal_cache_key`; a run =
-dataflow evaluation.  `KCfg.current` = the key as it is now (no node classes), `KCfg.proposed` = with
-the class of every child, `KCfg.shallow` = not descending into composite children (seeded change).
+dataflow evaluation.  `KCfg.current` = the key before 9c2c165 (no node classes; "current" when KF-C05-6 was
+found), `KCfg.proposed` = with the class of every child = /repo as it is now, `KCfg.shallow` = not descending
+into composite children (seeded change).
 -/
 namespace PwVerif.C05
 open PwVerif.Cache
@@ -35,32 +39,49 @@ def Transparent (cfg : Cfg) : Prop :=
     (runOps cfg beh true N.init ops).1.visible = (runOps cfg beh false N.init ops).1.visible
 
 /-- EVERY history over the full alphabet (cancelled, lost, late and interrupted jobs, manual resets
-included), every deterministic function -/
-theorem C05_transparent : Transparent Cfg.proposed := by
+included), every deterministic function — whether or not the done-callback catches KeyboardInterrupt -/
+theorem C05_transparent_commit (k : Bool) : Transparent (Cfg.commit k) := by
   intro beh ops hok
-  obtain ⟨h1, h2⟩ := runOps_sim beh ops N.init N.init (init_sim beh) hok
+  obtain ⟨h1, h2⟩ := runOps_sim k beh ops N.init N.init (init_sim beh) hok
   refine ⟨h1, ?_⟩
   simp [N.visible, h2.inp, h2.out, h2.running, h2.failed]
 
+/-- /repo as it is now -/
+theorem C05_transparent : Transparent Cfg.now := C05_transparent_commit true
+
+/-- /repo after b54ba0f, before f3b0474 -/
+theorem C05_transparent_proposed : Transparent Cfg.proposed := C05_transparent_commit false
+
 /-- from ANY pair of related states (not only the initial one) -/
-theorem C05_transparent_from (beh : Nat → Outcome) (ops : List Op) (a b : N) (h : Sim beh a b)
-    (hok : NoSubmitHit Cfg.proposed beh a ops) :
-    (runOps Cfg.proposed beh true a ops).2 = (runOps Cfg.proposed beh false b ops).2 ∧
-    (runOps Cfg.proposed beh true a ops).1.visible = (runOps Cfg.proposed beh false b ops).1.visible := by
-  obtain ⟨h1, h2⟩ := runOps_sim beh ops a b h hok
+theorem C05_transparent_from (k : Bool) (beh : Nat → Outcome) (ops : List Op) (a b : N) (h : Sim beh a b)
+    (hok : NoSubmitHit (Cfg.commit k) beh a ops) :
+    (runOps (Cfg.commit k) beh true a ops).2 = (runOps (Cfg.commit k) beh false b ops).2 ∧
+    (runOps (Cfg.commit k) beh true a ops).1.visible = (runOps (Cfg.commit k) beh false b ops).1.visible := by
+  obtain ⟨h1, h2⟩ := runOps_sim k beh ops a b h hok
   refine ⟨h1, ?_⟩
   simp [N.visible, h2.inp, h2.out, h2.running, h2.failed]
 
 /-- an executor submission answered from the cache = submission + completion on the uncached twin -/
-theorem C05_submit_hit_settles (beh : Nat → Outcome) (a b : N) (h : Sim beh a b) (hhit : a.hits = true)
+theorem C05_submit_hit_settles (k : Bool) (beh : Nat → Outcome) (a b : N) (h : Sim beh a b) (hhit : a.hits = true)
     (hq : a.jobs = []) :
-    Sim beh (step Cfg.proposed beh true a .submit).1
-      (step Cfg.proposed beh false (step Cfg.proposed beh false b .submit).1 .complete).1 ∧
-    (step Cfg.proposed beh true a .submit).2 =
-      .ret (step Cfg.proposed beh false (step Cfg.proposed beh false b .submit).1 .complete).1.out :=
-  submit_hit_settles beh a b h hhit hq
+    Sim beh (step (Cfg.commit k) beh true a .submit).1
+      (step (Cfg.commit k) beh false (step (Cfg.commit k) beh false b .submit).1 .complete).1 ∧
+    (step (Cfg.commit k) beh true a .submit).2 =
+      .ret (step (Cfg.commit k) beh false (step (Cfg.commit k) beh false b .submit).1 .complete).1.out :=
+  submit_hit_settles k beh a b h hhit hq
 
-/-- the tree AS IT IS: transparent for every history without a manual reset of `running` and without a
+/-- /repo as it is now: a job that ends with KeyboardInterrupt takes the failure path (node failed, nothing
+cached, not running) although the exception still leaves the callback; any other BaseException still leaves
+the node neither running nor failed — harmless now, because nothing is cached during a run -/
+theorem C05_interrupted_job_fails (beh : Nat → Outcome) (useCache : Bool) (n : N) (v : Nat) (js : List Nat)
+    (hj : n.jobs = v :: js) (hv : beh v = .kbd) :
+    (step Cfg.now beh useCache n .complete).2 = .escaped ∧
+    (step Cfg.now beh useCache n .complete).1.failed = true ∧
+    (step Cfg.now beh useCache n .complete).1.running = false ∧
+    (step Cfg.now beh useCache n .complete).1.cached = none := by
+  simp [step, hj, hv, Cfg.now, Cfg.commit, N.fail]
+
+/-- /repo BEFORE b54ba0f (`Cfg.repaired`): transparent for every history without a manual reset of `running` and without a
 lost job, for functions that raise nothing but `Exception`s — cancellation before start included -/
 theorem C05_current_partial (beh : Nat → Outcome) (hb : ∀ v, (beh v).tame = true) (ops : List Op)
     (hops : ∀ o ∈ ops, o.tame = true) (hok : NoSubmitHit Cfg.repaired beh N.init ops) :
@@ -85,7 +106,8 @@ BaseException, 6 is rejected by `process_run_result`, everything else returns -/
 def behW : Nat → Outcome := fun v =>
   if v == 1 then .exc else if v == 4 then .kbd else if v == 5 then .fatal else if v == 6 then .procbad else .ok
 
-/-! ### the tree as it is now is NOT transparent over the full alphabet (all replayed on /repo) -/
+/-! ### /repo before b54ba0f (`Cfg.repaired`, "current" when these were found) is NOT transparent over the full
+alphabet (all replayed on that tree; findings KF-C05-3/4/5, fixed by b54ba0f) -/
 
 /-- a job is lost, the user resets `running`, runs the same input again ⇒ stale outputs, function not
 called -/
@@ -163,13 +185,21 @@ def exOps : List Op :=
   [.set 2, .submit, .run, .complete, .run, .set 1, .run, .clearFailed, .run, .clearFailed, .set 2, .run, .set 3, .run,
    .set 7, .submit, .cancel, .run, .clearFailed, .set 2, .submit, .drop, .resetRunning, .run, .set 3, .submit, .resetRunning,
    .set 2, .run, .complete, .run, .set 4, .submit, .complete, .run]
-example : NoSubmitHit Cfg.proposed behW N.init exOps := by unfold NoSubmitHit; decide
-example : (runOps Cfg.proposed behW true N.init exOps).2
+example : NoSubmitHit Cfg.now behW N.init exOps := by unfold NoSubmitHit; decide
+example : (runOps Cfg.now behW true N.init exOps).2
     = [.unit, .future, .readiness, .unit, .ret (some 2), .unit, .raised, .unit, .raised, .unit, .unit,
        .ret (some 2), .unit, .ret (some 3),
        .unit, .future, .unit, .readiness, .unit, .unit, .future, .unit, .unit, .ret (some 2), .unit, .future, .unit,
-       .unit, .ret (some 2), .unit, .ret (some 2), .unit, .future, .escaped, .interrupted] := by
+       .unit, .ret (some 2), .unit, .ret (some 2), .unit, .future, .escaped, .readiness] := by
   decide
+/-- the histories that broke the previous variant, on /repo as it is now: both twins agree -/
+example : (runOps Cfg.now behW true N.init [.set 4, .submit, .complete, .run]).2 = [.unit, .future, .escaped, .readiness] ∧
+    (runOps Cfg.now behW false N.init [.set 4, .submit, .complete, .run]).2 = [.unit, .future, .escaped, .readiness] ∧
+    (runOps Cfg.now behW true N.init [.set 2, .submit, .drop, .resetRunning, .run]).2
+      = (runOps Cfg.now behW false N.init [.set 2, .submit, .drop, .resetRunning, .run]).2 ∧
+    (runOps Cfg.proposed behW true N.init [.set 4, .submit, .complete, .run]).2 = [.unit, .future, .escaped, .interrupted] := by
+  decide
+example : ∃ n : N, n.jobs = [4] ∧ behW 4 = .kbd := ⟨{ N.init with jobs := [4] }, rfl, rfl⟩
 /-- hypotheses of `C05_current_partial` are satisfiable by a history with a cancellation and a hit -/
 def exTame : List Op := [.set 2, .submit, .cancel, .run, .clearFailed, .run, .run, .set 6, .submit, .complete]
 example : (∀ o ∈ exTame, o.tame = true) ∧ NoSubmitHit Cfg.repaired (fun v => if v == 6 then .procbad else .ok) N.init exTame := by
@@ -191,7 +221,7 @@ theorem C05_key_sound {ρ : Type} (S : Sem ρ) (fuel : Nat) (vals : List ρ) (k1
     evalAll S fuel vals k1 = evalAll S fuel vals k2 :=
   key_sound_all S fuel vals k1 k2 h
 
-/-- the key of the tree as it is: sound when no function node changed its class -/
+/-- the key before 9c2c165 (`KCfg.current`): sound when no function node changed its class -/
 theorem C05_key_sound_current_partial {ρ : Type} (S : Sem ρ) (fuel : Nat) (vals : List ρ)
     (k1 k2 : List (Nat × T)) (h : key KCfg.current k1 = key KCfg.current k2) (hc : ClsAgree k1 k2) :
     evalAll S fuel vals k1 = evalAll S fuel vals k2 := by
@@ -235,13 +265,13 @@ def kidsB : List (Nat × T) :=
 def kidsC : List (Nat × T) :=
   [(1, .comp 3 [.val 7] [(2, .leaf 10 [.link 0]), (3, .leaf 11 [.conn 2, .val 6])]), (4, .leaf 12 [.conn 1])]
 
-/-- the key as it is now does not see the class of a grandchild: same key, different result -/
+/-- the key before 9c2c165 does not see the class of a grandchild: same key, different result -/
 theorem C05_key_current_witness :
     key KCfg.current kidsA = key KCfg.current kidsB ∧
     evalAll natSem 5 [] kidsA ≠ evalAll natSem 5 [] kidsB := by
   refine ⟨rfl, by decide⟩
 
-/-- … so the outer composite answers from its cache after the replacement (replayed on /repo) -/
+/-- … so the outer composite answered from its cache after the replacement (replayed on /repo before 9c2c165) -/
 theorem C05_tree_current_not_transparent : ¬ TreeTransparent KCfg.current := by
   intro h
   have := (h natSem 5 { vals := [], kids := kidsA, outs := [], cache := none }
@@ -271,6 +301,9 @@ end Tree
 end PwVerif.C05
 
 #print axioms PwVerif.C05.C05_transparent
+#print axioms PwVerif.C05.C05_transparent_commit
+#print axioms PwVerif.C05.C05_transparent_proposed
+#print axioms PwVerif.C05.C05_interrupted_job_fails
 #print axioms PwVerif.C05.C05_transparent_from
 #print axioms PwVerif.C05.C05_submit_hit_settles
 #print axioms PwVerif.C05.C05_current_partial
